@@ -3,7 +3,7 @@ L = "src/lib.rs"
 T = "pub trait JsonPath: Queryable"
 
 UNITS = [
-    Unit(name="JsonPath::query_with_path", file=L, impl=T, fn="query_with_path", order=75, serves=["C01", "C02", "C03"],
+    Unit(name="JsonPath::query_with_path", file=L, impl=T, fn="query_with_path", order=75, serves=["C01", "C02", "C03", "C12"],
          text_rewrites=[("E5m", "query::js_path(", "js_path(", 1)],
          ensures=[
              ("parse_err", "parsed(path@) is None ==> r is Err"),
@@ -11,7 +11,7 @@ UNITS = [
              ("nodes", "parsed(path@) matches Some(q) ==> r matches Ok(v) && ms(qnodes(v@)) == ms(rfc_query(q, self))"),
              ("nodelist", "parsed(path@) matches Some(q) ==> r matches Ok(v) && (segs_exact(q.segments@, true) ==> qnodes(v@) == rfc_query(q, self))"),
          ]),
-    Unit(name="JsonPath::query_only_path", file=L, impl=T, fn="query_only_path", order=75, serves=["C01", "C02", "C03"],
+    Unit(name="JsonPath::query_only_path", file=L, impl=T, fn="query_only_path", order=75, serves=["C01", "C02", "C03", "C12"],
          text_rewrites=[("E5m", "query::js_path_path(", "js_path_path(", 1)],
          ensures=[
              ("parse_err", "parsed(path@) is None ==> r is Err"),
@@ -20,7 +20,7 @@ UNITS = [
              ("paths", "parsed(path@) matches Some(q) ==> r matches Ok(v) && (segs_exact(q.segments@, true) ==> "
                        "v@.len() == rfc_query(q, self).len() && forall|i: int| 0 <= i < v@.len() ==> (#[trigger] v@[i])@ == rfc_query(q, self)[i].path)"),
          ]),
-    Unit(name="JsonPath::query", file=L, impl=T, fn="query", order=75, serves=["C01", "C02", "C03"],
+    Unit(name="JsonPath::query", file=L, impl=T, fn="query", order=75, serves=["C01", "C02", "C03", "C12"],
          text_rewrites=[("E5m", "query::js_path_vals(", "js_path_vals(", 1)],
          ensures=[
              ("parse_err", "parsed(path@) is None ==> r is Err"),
